@@ -203,6 +203,11 @@ def make(interp):
     def b_set(it=()):
         if hasattr(it, '_toset'):
             return it._toset()
+        src = getattr(it, 'tolist_of', it)
+        if hasattr(src, 'shape') and len(src.shape) == 1 and is_sym(src.shape[0]):
+            from .numpy_ import membership
+            from .seq import SymSet
+            return SymSet(membership(src))      # raises Unsupported when the array has no defining membership predicate
         xs = list(interp.iterate(it))
         _hashable_check(xs)
         return set(xs)
